@@ -13,7 +13,7 @@ EXPLANATION = (
     'deletion markers included, reaches the insert; (R4) each populate migration returns Skip when its target is non-empty '
     'and run_migration commits only on Execute. (R5) the file-format migration that runs on open for stores written by '
     'iroh-docs 0.94..=0.98 (migrate_redb_v2_tuples::run), evaluated on an old file holding one row per table, carries the '
-    'records and both derived tables, and swaps the files only after the copy was committed. (R6) the capability-table migrations 002 and 003 evaluated on a database without a version-1 table: Skip, nothing created, written or deleted; 003 deletes only the version-1 table. NOT decided: equality of '
+    'records and both derived tables, and swaps the files only after the copy was committed. (R6) the capability-table migrations 002 and 003 evaluated on a database without a version-1 table: Skip, nothing created, written or deleted; 003 deletes only the version-1 table. (R7) = C16.R1 for the two derived tables: removing a document erases its rows there. NOT decided: equality of '
     'answers for arbitrary table contents.'
 )
 ASSUMPTIONS = ["redb transactions are atomic; an uncommitted WriteTransaction is rolled back on drop"]
@@ -400,9 +400,19 @@ def r6(ctx):
     ctx.floor("C18.R6", 3)
 
 
+def r7(ctx):
+    """a maintained derived table equals a rebuilt one also after a document was removed: removal erases the document's rows of
+    the heads table and of the key-ordered index (a rebuild finds no records of it), or the maintained tables keep answering
+    for a document that is gone - and for its re-created namesake (the derived-table rows of C16.R1)"""
+    from . import C16
+    C16.r1(ctx, rule="C18.R7", only={"latest_per_author", "records_by_key"})
+    ctx.floor("C18.R7", 2)
+
+
 def run(ctx):
     ctx.run_rule("C18.R1", r1)
     ctx.run_rule("C18.R2", r2)
     ctx.run_rule("C18.R4", r4)
     ctx.run_rule("C18.R5", r5)
     ctx.run_rule("C18.R6", r6)
+    ctx.run_rule("C18.R7", r7)
